@@ -252,6 +252,11 @@ def main(argv):
     except Exception:
         ctx.harness_errors.append("run(): " + traceback.format_exc()[-2500:])
     reach.stop()
+    if os.environ.get("SYMV_LINECOV"):
+        # development aid (tools/linecov.py): every executed line of the library, per shard
+        os.makedirs(os.environ["SYMV_LINECOV"], exist_ok=True)
+        with open(os.path.join(os.environ["SYMV_LINECOV"], f"{pid}-{os.getpid()}.json"), "w") as f:
+            json.dump(sorted(reach.hits), f)
     anchors = reach.per_function(mod.META.get("anchors", []))
     rep = {
         "evaluations": ctx.evaluations,
